@@ -276,22 +276,11 @@ Fixpoint inst (deep : bool) (d : nat) (f : fld) (h : heap) (arg : option val) {s
       match entries with
       | None => None
       | Some es =>
-          match (fix go (fs : list (str * fld)) (h : heap) {struct fs} : option (heap * list (str * val)) :=
-                   match fs with
-                   | [] => Some (h, [])
-                   | kf :: r =>
-                       match kf with
-                       | (k, fk) =>
-                           match inst deep d fk h (assoc pyval_eqb (PStr k) es) with
-                           | Some (h1, v1) =>
-                               match go r h1 with
-                               | Some (h2, vs) => Some (h2, (k, v1) :: vs)
-                               | None => None
-                               end
-                           | None => None
-                           end
-                       end
-                   end) fs h with
+          match maph (fun h kf => match kf with (k, fk) =>
+                                    match inst deep d fk h (assoc pyval_eqb (PStr k) es) with
+                                    | Some (h1, v1) => Some (h1, (k, v1))
+                                    | None => None
+                                    end end) h fs with
           | Some (h1, data) =>
               let extra := filter (fun kv => negb (has_field (fst kv) fs)) (str_entries es) in
               match extra with
